@@ -12,6 +12,9 @@
 (*           together yield every name exactly once (NamesEnd);              *)
 (*   aranges / pub: the complete iteration equals the abstract list;         *)
 (*   indexed tables: entry i, or an error at and beyond the end.             *)
+(* Real sections from the corpus (Corpus* events) carry no hint: the table   *)
+(* is read off the bytes by Lookup's layout decoders (Enc(Dec(bytes)) =      *)
+(* bytes is checked) and the lookups are judged against its scan.            *)
 (* The per-table sets are constant-level definitions indexed by the table's  *)
 (* event number, so TLC builds each of them once.                            *)
 EXTENDS Lookup, TLC, Json, IOUtils
@@ -22,11 +25,20 @@ IsEv(e) == l <= Len(Rec) /\ Rec[l].ev = e /\ l' = l + 1
 IsErr(x) == "err" \in DOMAIN x
 Same(exp, got) == IF IsErr(exp) THEN IsErr(got) ELSE got = exp
 
-IndexTables == {k \in DOMAIN Rec : Rec[k].ev = "IndexTable"}
-IdSetAt == [k \in IndexTables |-> {Rec[k].ix.slots[i].id : i \in DOMAIN Rec[k].ix.slots}]
-PairsAt == [k \in IndexTables |-> {<<Rec[k].ix.slots[i].id, Rec[k].ix.slots[i].row>> : i \in DOMAIN Rec[k].ix.slots}]
-NamesTables == {k \in DOMAIN Rec : Rec[k].ev = "NamesTable"}
-HashSetAt == [k \in NamesTables |-> {Rec[k].nx.hashes[i] : i \in DOMAIN Rec[k].nx.hashes}]
+(* the abstract table of a table event: the logged hint, or (real sections from the  *)
+(* corpus, no hint) the table read off the bytes by Lookup's layout decoders          *)
+(* TLC evaluates [k \in S |-> e] lazily (e is re-evaluated at every application); `@@` *)
+(* yields an explicit function, so each per-table value below is computed exactly once  *)
+Eager(f) == f @@ <<>>
+IndexTables == {k \in DOMAIN Rec : Rec[k].ev \in {"IndexTable", "CorpusIndex"}}
+IxAt == Eager([k \in IndexTables |-> IF Rec[k].ev = "IndexTable" THEN Rec[k].ix ELSE DecIndex(Rec[k].bytes, Rec[k].le)])
+IdSetAt == Eager([k \in IndexTables |-> {IxAt[k].slots[i].id : i \in DOMAIN IxAt[k].slots}])
+PairsAt == Eager([k \in IndexTables |-> {<<IxAt[k].slots[i].id, IxAt[k].slots[i].row>> : i \in DOMAIN IxAt[k].slots}])
+NamesTables == {k \in DOMAIN Rec : Rec[k].ev \in {"NamesTable", "CorpusNames"}}
+NxAt == Eager([k \in NamesTables |-> IF Rec[k].ev = "NamesTable" THEN Rec[k].nx ELSE DecNamesLite(Rec[k].bytes, Rec[k].le)])
+HashSetAt == Eager([k \in NamesTables |-> {NxAt[k].hashes[i] : i \in DOMAIN NxAt[k].hashes}])
+Tables == {k \in DOMAIN Rec : Rec[k].ev \in {"Table", "CorpusTable"}}
+TblAt == Eager([k \in Tables |-> IF Rec[k].ev = "Table" THEN Rec[k].t ELSE DecTable(Rec[k].bytes, Rec[k].base, Rec[k].w, Rec[k].le)])
 
 IndexTable == IsEv("IndexTable") /\ LET r == Rec[l] IN
     /\ EncIndex(r.ix, r.le) = r.bytes
@@ -34,25 +46,34 @@ IndexTable == IsEv("IndexTable") /\ LET r == Rec[l] IN
        /\ Cardinality(IdSetAt[l] \ {Zero(8)}) = Cardinality(used)             \* the table is a function id -> row
        /\ Cardinality(used) = Len(r.ix.rows)
     /\ t' = l /\ cnt' = 0
+CorpusIndex == IsEv("CorpusIndex") /\ LET r == Rec[l]
+                                         enc == EncIndex(IxAt[l], r.le) IN
+    /\ Len(enc) <= Len(r.bytes) /\ SubSeq(r.bytes, 1, Len(enc)) = enc          \* the decoder inverts the encoder
+    /\ t' = l /\ cnt' = 0
 IndexParsed == IsEv("IndexParsed") /\ LET r == Rec[l] IN
-    /\ IndexParse(Rec[t].ix) = [ok |-> TRUE, ver |-> r.ver, scount |-> r.scount, ucount |-> r.ucount, ncount |-> r.ncount]
+    /\ IndexParse(IxAt[t]) = [ok |-> TRUE, ver |-> r.ver, scount |-> r.scount, ucount |-> r.ucount, ncount |-> r.ncount]
     /\ UNCHANGED <<t, cnt>>
 Find == IsEv("Find") /\ LET r == Rec[l] IN
-    /\ r.res = FindCoded(Rec[t].ix.slots, r.id)                                \* the probe machine as coded
+    /\ r.res = FindCoded(IxAt[t].slots, r.id)                                  \* the probe machine as coded
     /\ IF r.res.hit THEN <<r.id, r.res.row>> \in PairsAt[t]                    \* = the exhaustive scan
        ELSE (r.id \notin IdSetAt[t] \/ IsZero(r.id))
     /\ UNCHANGED <<t, cnt>>
 Sections == IsEv("Sections") /\ LET r == Rec[l] IN
-    /\ LET e == IndexSections(Rec[t].ix, r.row) IN
-       IF r.row = 0 \/ r.row > Len(Rec[t].ix.rows) THEN IsErr(r.res) ELSE (~IsErr(r.res) /\ r.res.ok = e)
+    /\ LET e == IndexSections(IxAt[t], r.row) IN
+       IF r.row = 0 \/ r.row > Len(IxAt[t].rows) THEN IsErr(r.res) ELSE (~IsErr(r.res) /\ r.res.ok = e)
     /\ UNCHANGED <<t, cnt>>
 
 Lite(h) == [bcount |-> h.bcount, buckets |-> h.buckets, hashes |-> h.hashes, names |-> h.stroffs]
 NamesTable == IsEv("NamesTable") /\ LET r == Rec[l] IN
     /\ EncNamesUniform(r.nx, r.le) = r.bytes
     /\ t' = l /\ cnt' = 0
+CorpusNames == IsEv("CorpusNames") /\ LET r == Rec[l]
+                                         h == NxAt[l] IN
+    /\ h.ver = 5 /\ h.pool_at <= Len(r.bytes) + 1
+    /\ (h.bcount > 0 => SortedByBucket(h.hashes, h.bcount) /\ h.buckets = BuildBuckets(h.hashes, h.bcount))   \* a well-formed table
+    /\ t' = l /\ cnt' = 0
 FindByHash == IsEv("FindByHash") /\ LET r == Rec[l]
-                                       h == Rec[t].nx IN
+                                       h == NxAt[t] IN
     /\ ~IsErr(r.res)
     /\ r.res = HashCoded(Lite(h), r.h)                                         \* bucket walk as coded
     /\ \A k \in DOMAIN r.res.items : h.hashes[r.res.items[k] + 1] = r.h        \* only names with that hash
@@ -61,9 +82,13 @@ FindByHash == IsEv("FindByHash") /\ LET r == Rec[l]
        ELSE r.h \notin HashSetAt[t] /\ r.res.items = <<>>
     /\ cnt' = IF r.present THEN cnt + Len(r.res.items) ELSE cnt
     /\ t' = t
-NamesEnd == IsEv("NamesEnd") /\ cnt = Len(Rec[t].nx.hashes) /\ UNCHANGED <<t, cnt>>   \* every name was found once
+NamesEnd == IsEv("NamesEnd") /\ cnt = Len(NxAt[t].hashes) /\ UNCHANGED <<t, cnt>>   \* every name was found once
 Bucket == IsEv("Bucket") /\ LET r == Rec[l] IN
-    /\ Same(BucketCoded(Lite(Rec[t].nx), r.b), r.res)
+    /\ Same(BucketCoded(Lite(NxAt[t]), r.b), r.res)
+    /\ UNCHANGED <<t, cnt>>
+NameOff == IsEv("NameOff") /\ LET r == Rec[l]
+                                 h == NxAt[t] IN
+    /\ IF r.i >= Len(h.stroffs) THEN IsErr(r.stroff) ELSE r.stroff = [ok |-> h.stroffs[r.i + 1]]
     /\ UNCHANGED <<t, cnt>>
 Name == IsEv("Name") /\ LET r == Rec[l]
                            h == Rec[t].nx IN
@@ -79,6 +104,24 @@ Aranges == IsEv("Aranges") /\ LET r == Rec[l] IN
     /\ r.res.raw = ArRawObs(r.a)
     /\ r.res.entries = ArCooked(r.a)
     /\ UNCHANGED <<t, cnt>>
+CorpusAranges == IsEv("CorpusAranges") /\ LET r == Rec[l]
+                                             sets == DecArSets(r.bytes, r.le, 1) IN
+    /\ Flat([k \in DOMAIN sets |-> EncArSet(sets[k], r.le)]) = r.bytes            \* the decoder inverts the encoder
+    /\ ~IsErr(r.res) /\ Len(r.res.sets) = Len(sets)
+    /\ \A k \in DOMAIN sets :
+         /\ ArHeaderOk(sets[k])
+         /\ r.res.sets[k].asz = sets[k].asz /\ r.res.sets[k].info = sets[k].info
+         /\ r.res.sets[k].raw = ArRawObs(sets[k])
+         /\ r.res.sets[k].entries = ArCooked(sets[k])
+    /\ UNCHANGED <<t, cnt>>
+CorpusPub == IsEv("CorpusPub") /\ LET r == Rec[l]
+                                     sets == DecPubSets(r.bytes, r.le, 1) IN
+    /\ Flat([k \in DOMAIN sets |-> EncPubSet(sets[k], r.le)]) = r.bytes
+    /\ ~IsErr(r.res) /\ r.res.items = PubItems(sets, 1)
+    /\ UNCHANGED <<t, cnt>>
+CorpusTable == IsEv("CorpusTable") /\ LET r == Rec[l] IN
+    /\ EncTable(TblAt[l], r.le) = r.bytes
+    /\ t' = l /\ cnt' = 0
 Pub == IsEv("Pub") /\ LET r == Rec[l] IN
     /\ Flat([k \in DOMAIN r.sets |-> EncPubSet(r.sets[k], r.le)]) = r.bytes
     /\ ~IsErr(r.res) /\ r.res.items = PubItems(r.sets, 1)
@@ -87,13 +130,14 @@ Table == IsEv("Table") /\ LET r == Rec[l] IN
     /\ EncTable(r.t, r.le) = r.bytes
     /\ t' = l /\ cnt' = 0
 Get == IsEv("Get") /\ LET r == Rec[l] IN
-    /\ Same(TableGet(Rec[t].t, r.i), r.res)
+    /\ Same(TableGet(TblAt[t], r.i), r.res)
     /\ UNCHANGED <<t, cnt>>
 
 Init == l = 1 /\ t = 0 /\ cnt = 0
 Next == IndexTable \/ IndexParsed \/ Find \/ Sections \/ NamesTable \/ FindByHash \/ NamesEnd \/ Bucket \/ Name
         \/ Aranges \/ Pub \/ Table \/ Get
+        \/ CorpusIndex \/ CorpusNames \/ NameOff \/ CorpusAranges \/ CorpusPub \/ CorpusTable
 Accepted == LET d == TLCGet("stats").diameter IN
             IF d - 1 = Len(Rec) THEN TRUE
-            ELSE Print(<<"UNMATCHED", d, ToJson([k \in {"ev", "res", "id", "h", "i", "b", "row", "present"} \cap DOMAIN Rec[d] |-> Rec[d][k]])>>, FALSE)
+            ELSE Print(<<"UNMATCHED", d, ToJson([k \in {"ev", "res", "id", "h", "i", "b", "row", "present", "file", "stroff"} \cap DOMAIN Rec[d] |-> Rec[d][k]])>>, FALSE)
 =============================================================================
